@@ -473,7 +473,7 @@ pub fn literal_sizes(ctx: &Ctx, name: &str, st: &mut Local, f: mutspace::BSink) 
         return;
     }
     let sizes: &[usize] = if ctx.quick() {
-        &[0, 1, 127, 128, 16383, 16384, 65535, 65536, 65537, 70000, 2097151, 2097152]
+        &[0, 1, 127, 128, 16383, 16384, 65535, 65536, 65537, 70000, 131071, 131072, 196608, 2097151, 2097152]
     } else {
         &[0, 1, 2, 127, 128, 129, 16383, 16384, 16385, 65535, 65536, 65537, 70000, 131072, 131073, 2097151, 2097152]
     };
